@@ -150,40 +150,24 @@ def opt_truth(ctx: Ctx) -> List[Ob]:
 
 # ---------------------------------------------------------------- OPT-DEREF
 def _guarded_not_none(ctx: Ctx, f: Func, use: ast.AST, text: str) -> bool:
-    """`use` lies under a test that establishes text is not None / truthy, or
-    is the right operand of `text and ...` / `text or ()`."""
+    """Whenever `use` is evaluated, `text` is known to be not None / truthy
+    (path conditions: enclosing tests, earlier guards, `x and ...`, comprehension filters),
+    or `use` is the left operand of `x or ()`."""
+    from .util import path_conds
+
+    for e, pol in path_conds(ctx, f, use):
+        t = norm(e)
+        if pol and t in (text, f"len({text}) > 0", f"bool({text})"):
+            return True
+        if (not pol) and t in (f"{text} is None", f"{text} == None"):
+            return True
+        if pol and isinstance(e, ast.Compare) and norm(e.left) == f"len({text})" and isinstance(e.ops[0], (ast.Gt, ast.GtE, ast.Eq, ast.NotEq)) and len(e.ops) == 1:
+            c = e.comparators[0]
+            if isinstance(c, ast.Constant) and isinstance(c.value, int) and ((isinstance(e.ops[0], ast.Gt) and c.value >= 0) or (isinstance(e.ops[0], (ast.GtE, ast.Eq)) and c.value >= 1)):
+                return True
     p = ctx.model.parent_of(use)
-    child = use
-    while p is not None and p is not f.node:
-        if isinstance(p, ast.If) and any(child is st or _contains(st, child) for st in p.body):
-            t = norm(p.test)
-            if t == text or t == f"{text} is not None" or t.startswith(text + " and ") or f" and {text}" in t or t == f"len({text}) > 0":
-                return True
-        if isinstance(p, ast.IfExp) and (child is p.body):
-            t = norm(p.test)
-            if t == text or t == f"{text} is not None":
-                return True
-        if isinstance(p, ast.IfExp) and (child is p.orelse):
-            t = norm(p.test)
-            if t in (f"{text} is None", f"not {text}"):
-                return True
-        if isinstance(p, ast.BoolOp):
-            idx = [i for i, v in enumerate(p.values) if v is child or _contains(v, child)]
-            if idx and isinstance(p.op, ast.And) and any(norm(v) == text for v in p.values[: idx[0]]):
-                return True
-            if idx and isinstance(p.op, ast.Or) and idx[0] == 0 and norm(child) == text:
-                return True  # `x or ()`
-        child = p
-        p = ctx.model.parent_of(p)
-    # early exit: an earlier `if not x: return/raise` in the same function
-    for n in iter_own(f.node):
-        if isinstance(n, ast.If) and n.lineno < getattr(use, "lineno", 0):
-            t = norm(n.test)
-            if t in (f"not {text}", f"{text} is None") and n.body and isinstance(n.body[-1], (ast.Return, ast.Raise, ast.Continue)):
-                return True
-            # `if not x: ... elif ...:` chains: use inside the else part
-            if t in (f"not {text}", f"{text} is None") and any(_contains(st, use) for st in n.orelse):
-                return True
+    if isinstance(p, ast.BoolOp) and isinstance(p.op, ast.Or) and p.values and p.values[0] is use:
+        return True  # `x or ()`
     return False
 
 
